@@ -214,6 +214,23 @@ func (g *HistGen) indexDef(ix IndexSpec, tp bool) IndexDef {
 	return IndexDef{Name: HexS(ix.Name), Key: *keyDefOf(ix.Hash, ix.Range), TP: tp}
 }
 
+// an index whose key attributes are all key attributes of the table: the inverted index
+// (hash and range swapped) or the range attribute alone
+func (g *HistGen) keyOnlyIndexSpec(t *TableSpec, name string) IndexSpec {
+	if g.r.Chance(60) {
+		h := t.Hash
+		return IndexSpec{Name: name, Hash: *t.Range, Range: &h}
+	}
+	return IndexSpec{Name: name, Hash: *t.Range}
+}
+
+func (g *HistGen) newIndexSpecFor(t *TableSpec, name string) IndexSpec {
+	if t.Range != nil && g.r.Chance(20) {
+		return g.keyOnlyIndexSpec(t, name)
+	}
+	return g.newIndexSpec(name)
+}
+
 func (g *HistGen) newIndexSpec(name string) IndexSpec {
 	ix := IndexSpec{Name: name, Hash: [2]string{pick(g.r, []string{"g", "g", "g2"}), "S"}}
 	if g.r.Chance(40) {
@@ -247,7 +264,7 @@ func (g *HistGen) createTable(name string) {
 		if t.Range != nil && g.r.Chance(25) {
 			t.LSI = append(t.LSI, IndexSpec{Name: fmt.Sprintf("lsi%d", i), Hash: t.Hash, Range: &[2]string{"l", "S"}})
 		} else {
-			t.GSI = append(t.GSI, g.newIndexSpec(fmt.Sprintf("gsi%d", i)))
+			t.GSI = append(t.GSI, g.newIndexSpecFor(t, fmt.Sprintf("gsi%d", i)))
 		}
 	}
 	op := &Op{Op: "createTable", Table: HexS(name), Key: keyDefOf(t.Hash, t.Range), PPR: g.r.Chance(80)}
@@ -365,13 +382,22 @@ func (g *HistGen) genPut() {
 			all := append(append([]IndexSpec{}, t.GSI...), t.LSI...)
 			if len(all) > 0 {
 				ix := pick(g.r, all)
+				// the index hash key, or its range key (always the range key when the hash is the table's own)
+				attr, ty := ix.Hash[0], ix.Hash[1]
+				if ix.Range != nil && (attr == t.Hash[0] || g.r.Chance(50)) {
+					attr, ty = ix.Range[0], ix.Range[1]
+				}
+				bad := AV{T: "N", V: []byte("5")}
+				if ty == "N" {
+					bad = S("ten")
+				}
 				it := Item{}
 				for _, kv := range op.Item {
-					if string(kv.K) != ix.Hash[0] {
+					if string(kv.K) != attr {
 						it = append(it, kv)
 					}
 				}
-				op.Item = append(it, KV{[]byte(ix.Hash[0]), AV{T: "N", V: []byte("5")}})
+				op.Item = append(it, KV{[]byte(attr), bad})
 			}
 		}
 	}
@@ -417,7 +443,21 @@ func (g *HistGen) genUpdate() {
 		op.KeyItem = g.badKey(t)
 	}
 	ctx := NewExprCtx(g.r)
-	if g.r.Chance(g.p.BadPct) {
+	all := append(append([]IndexSpec{}, t.GSI...), t.LSI...)
+	if len(all) > 0 && g.r.Chance(g.p.BadPct/2) {
+		// well-formed, evaluates fine, but leaves an index key attribute with the wrong type: must be
+		// rejected without a trace, also when the item exists
+		ix := pick(g.r, all)
+		attr, ty := ix.Hash[0], ix.Hash[1]
+		if ix.Range != nil && (attr == t.Hash[0] || g.r.Chance(50)) {
+			attr, ty = ix.Range[0], ix.Range[1]
+		}
+		bad := AV{T: "N", V: []byte("5")}
+		if ty == "N" {
+			bad = S("ten")
+		}
+		op.Expr = HexS("SET " + ctx.name([]byte("v")) + " = " + ctx.value(S("touched")) + ", " + ctx.name([]byte(attr)) + " = " + ctx.value(bad) + " REMOVE " + ctx.name([]byte("s1")))
+	} else if g.r.Chance(g.p.BadPct) {
 		op.Expr = HexS(pick(g.r, []string{"SET", "SET v = ", "v = :x", "SET v = :x SET v = :x", "FOO v :x", "SET v = :x,", "REMOVE", "ADD v"}))
 		if strings.Contains(string(op.Expr), ":x") {
 			ctx.Values[":x"] = S("1")
@@ -456,7 +496,21 @@ func (g *HistGen) genGet() {
 
 // variant of a registered native expression: same text, extra white space, or an anagram
 func (g *HistGen) variant(e string) string {
-	switch g.r.Intn(5) {
+	switch g.r.Intn(6) {
+	case 5: // another letter case somewhere outside the placeholders: a different expression
+		b := []byte(e)
+		var cand []int
+		for i, c := range b {
+			isL := (c >= 'a' && c <= 'z') || (c >= 'A' && c <= 'Z')
+			if isL && (i == 0 || (b[i-1] != ':' && b[i-1] != '#')) {
+				cand = append(cand, i)
+			}
+		}
+		if len(cand) > 0 {
+			i := pick(g.r, cand)
+			b[i] ^= 0x20
+		}
+		return string(b)
 	case 0:
 		return "  " + strings.ReplaceAll(e, " ", "  ") + "\n"
 	case 1:
@@ -590,8 +644,11 @@ func (g *HistGen) genBatchWrite() {
 		nt = 2
 	}
 	total := 0
+	// two tables that are each within the limit of 25 while the call as a whole is around it
+	around := nt == 2 && g.r.Chance(20)
+	first := g.r.Intn(len(live))
 	for ti := 0; ti < nt; ti++ {
-		t := live[(g.r.Intn(len(live))+ti)%len(live)]
+		t := live[(first+ti)%len(live)]
 		dup := false
 		for _, e := range op.WReqs {
 			if string(e.Table) == t.Name {
@@ -604,6 +661,9 @@ func (g *HistGen) genBatchWrite() {
 		n := 1 + g.r.Intn(5)
 		if g.r.Chance(6) {
 			n = 20 + g.r.Intn(10)
+		}
+		if around {
+			n = 11 + g.r.Intn(4)
 		}
 		tr := TableReqs{Table: HexS(t.Name)}
 		for i := 0; i < n; i++ {
@@ -671,7 +731,7 @@ func (g *HistGen) genMgmt() {
 	case 2, 3: // add an index to a table with data
 		if len(live) > 0 {
 			t := pick(g.r, live)
-			ix := g.newIndexSpec(fmt.Sprintf("late%d", len(t.GSI)))
+			ix := g.newIndexSpecFor(t, fmt.Sprintf("late%d", len(t.GSI)))
 			g.ops = append(g.ops, &Op{Op: "updateTable", Table: HexS(t.Name), Changes: []IndexChange{{Create: &IndexDef{Name: HexS(ix.Name), Key: *keyDefOf(ix.Hash, ix.Range), TP: true}}}})
 			t.GSI = append(t.GSI, ix)
 		}
